@@ -387,6 +387,7 @@ def gen_specs(tier):
     for leaf in (['agg', 'min'], ['agg', 'max'], ['agg', 'first'], ['list', 'T']):
         specs.append(('mixed', leaf))
         specs.append(('mixed', ['dict', 'const', leaf]))
+        specs.append(('mixed', ['dict', 'type', leaf]))       # 1 / 1.0 / True are equal, their keys (int / float / bool) are not
     # list- and dict-valued items
     for leaf, kind in ((['agg', 'flatten'], 'lists'), (['agg', 'merge'], 'dicts'), (['agg', 'count'], 'lists'), (['list', 'T'], 'dicts'), (['agg', 'flatten_tuple'], 'tuples')):
         specs.append((kind, leaf))
